@@ -32,13 +32,13 @@ M = [
  ('m04_desc', 'C04', 'data.py', "self.data.sort_values('dt').loc[data_indexer]['height'].values,", "self.data.sort_values('dt', ascending=False).loc[data_indexer]['height'].values,"),
  ('m04_min', 'C04', 'utils/utils.py', "return np.percentile(n_latest_elements, height_perc)", "return np.min(n_latest_elements) if height_perc < 10 else np.percentile(n_latest_elements, height_perc)"),
  ('m04_round', 'C04', 'wmo.py', "        out = np.floor(val/100)\n", "        out = np.round(val/100)\n"),
- ('m04_lt10000', 'C04', 'wmo.py', "if val <= 10000:", "if val < 10000:"),
+ # ('m04_lt10000': `val <= 10000` -> `<` is an EQUIVALENT change: 10000 ft is coded 100 by both branches)
  ('m04_fallback_ge', 'C04', 'data.py', "if in_sligrolay_filtered.sum() > self.prms['MAX_HITS_OKTA0']:", "if in_sligrolay_filtered.sum() >= self.prms['MAX_HITS_OKTA0']:"),
  ('m04_std0', 'C04', 'data.py', "self.data.loc[in_sligrolay, 'height'].std(skipna=True)", "self.data.loc[in_sligrolay, 'height'].std(skipna=True, ddof=0)"),
  # --- C05
  ('m05_idbase', 'C05', 'data.py', "id_offset+10*ind+sub_layers_id", "id_offset+ind+sub_layers_id"),
  ('m05_fill_slice', 'C05', 'data.py', "self.data.loc[to_fill, 'layer_id'] = self.data.loc[to_fill, 'group_id']", "self.data.loc[to_fill, 'layer_id'] = self.data.loc[to_fill, 'slice_id']"),
- ('m05_119', 'C05', 'layer.py', "            abics[n_id] = max(abics) + 1  # The larger the abics score, the worst the fit.", "            pass"),
+ ('m08_119', 'C08', 'layer.py', "            abics[n_id] = max(abics) + 1  # The larger the abics score, the worst the fit.", "            pass"),
  ('m05_nslices', 'C05', 'data.py', "return len(np.unique(self.data['layer_id'][self.data['layer_id'] >= 0]))", "return len(np.unique(self.data['layer_id'][self.data['layer_id'] > 0]))"),
  # --- C06
  ('m06_once', 'C06', 'data.py', "            lt_min_sep_indexer = (base_height_diffs < min_seps_grp).fillna(False)\n\n    @log_func_call(logger)\n    def find_groups", "            lt_min_sep_indexer = (base_height_diffs < min_seps_grp).fillna(False)\n            break\n\n    @log_func_call(logger)\n    def find_groups"),
@@ -66,7 +66,7 @@ M = [
  ('m10_colorder', 'C10', 'data.py', "            tmp[['dt', 'height']][valids].to_numpy(), algo='agglomerative',\n                **{'linkage': 'average'", "            tmp.iloc[:, 1:3][valids].to_numpy(), algo='agglomerative',\n                **{'linkage': 'average'"),
  # --- C11
  ('m11_shallow', 'C11', 'data.py', "full_prms = copy.deepcopy(dynamic.AMPYCLOUD_PRMS)", "full_prms = copy.copy(dynamic.AMPYCLOUD_PRMS)"),
- ('m11_nodatacopy', 'C11', 'utils/utils.py', "    data = copy.deepcopy(pdf)\n", "    data = pdf\n"),
+ ('m15_nodatacopy', 'C15', 'utils/utils.py', "    data = copy.deepcopy(pdf)\n", "    data = pdf\n"),
  ('m11_global_adjust', 'C11', 'data.py', "        full_prms = copy.deepcopy(dynamic.AMPYCLOUD_PRMS)\n\n        # Adjust the prms as warranted by the user\n        if prms is not None:\n            full_prms = utils.adjust_nested_dict(full_prms, prms)", "        full_prms = dynamic.AMPYCLOUD_PRMS\n\n        # Adjust the prms as warranted by the user\n        if prms is not None:\n            full_prms = utils.adjust_nested_dict(full_prms, prms)\n        full_prms = copy.deepcopy(full_prms)"),
  # --- C12
  ('m12_liveglobal', 'C12', 'data.py', "                **self.prms['LOWESS'])\n\n        return pdf", "                **dynamic.AMPYCLOUD_PRMS['LOWESS'])\n\n        return pdf"),
